@@ -9,7 +9,7 @@
 (* the piecewise-linear function is an exact rational with denominator 2W.    *)
 (***************************************************************************)
 EXTENDS Integers, Sequences, FiniteSets, TLC, Json
-I == INSTANCE Instrument WITH Kind <- "spectrometer", MaxHist <- 0, par <- 0, cache <- 0, outcome <- 0, hist <- 0
+I == INSTANCE Instrument WITH Kind <- "spectrometer", MaxHist <- 0, par <- 0, cache <- 0, used <- 0, outcome <- 0, hist <- 0
 
 T == 4                           \* ticks per nm
 VARIABLE c                       \* the case: [lay, W, pad, variant]
